@@ -11,7 +11,9 @@ SmallBase == 4
 
 VARIABLES a, b, q
 vars == <<a, b, q>>
-Init == a \in -N..N /\ b \in -N..N /\ q \in {-N, -3, -2, -1, 0, 1, 2, 3, 5, 8, N} \cup {CeilQ(a, IF b = 0 THEN 1 ELSE b), TruncQ(a, IF b = 0 THEN 1 ELSE b)}
+Extra == {-1025, -256, -255, -129, -128, 127, 128, 255, 256, 1023, 1024, 4095}
+Dom == (-N..N) \cup Extra
+Init == a \in Dom /\ b \in Dom /\ q \in {-N, -3, -2, -1, 0, 1, 2, 3, 5, 8, N} \cup {CeilQ(a, IF b = 0 THEN 1 ELSE b), TruncQ(a, IF b = 0 THEN 1 ELSE b)}
 Next == UNCHANGED vars
 Spec == Init /\ [][Next]_vars
 
@@ -33,12 +35,12 @@ ZLaws ==
   /\ IsZ(Z(a)) /\ IntOfZ(Z(a)) = a
   /\ AddZ(Z(a), Z(b)) = Z(a + b) /\ SubZ(Z(a), Z(b)) = Z(a - b) /\ MulZ(Z(a), Z(b)) = Z(a * b)
   /\ CmpZ(Z(a), Z(b)) = Sgn(a - b) /\ NegZ(Z(a)) = Z(-a) /\ AbsZ(Z(a)) = Z(Abs(a))
-PowLaws == \A k \in 0..64 :
+ASSUME PowLaws == \A k \in 0..64 :
   /\ IsNat(Pow2N[k])
   /\ (k <= 30 => Pow2N[k] = NOfInt(P2[k]))
   /\ (k > 0 => Pow2N[k] = MulN(Pow2N[k - 1], NOfInt(2)))
+ASSUME BoundTable == \A T \in {"i8", "u8", "i16", "u16"} : MinZ(T) = Z(Min(T)) /\ MaxZ(T) = Z(Max(T))
 BoundLaws == \A T \in {"i8", "u8", "i16", "u16"} :
-  /\ MinZ(T) = Z(Min(T)) /\ MaxZ(T) = Z(Max(T))
   /\ (RepZ(T, Z(a * 50 + b)) <=> Representable(T, a * 50 + b))
 
 MapZ(o) == IF o = None THEN None ELSE Some(Z(o[1]))
